@@ -83,7 +83,7 @@ def make_frame(ex, kind, fmt, wr, jpgcached, caches, tag='s'):
         f.entry_pix = DEC(bts, z3.IntVal(flag(fmt)))
         return f
     pix = z3.Const(f'pix_{tag}', Pix)
-    arr = IM.new_array(ex, shape, pix, wr, 'given')
+    arr = IM.new_array(ex, shape, pix, wr, 'given', contig=z3.Bool(f'c_contiguous_{tag}'))      # user arrays may be strided views
     f.f['_Frame__image'] = arr
     f.entry_pix = pix
     if jpgcached:
